@@ -388,11 +388,10 @@ def run(pid, args, seed, work, t0):
         # property can no longer be examined
         r = oracles.Result('hang')
         r.evaluations = 1
-        if pid == 'C08':
-            r.violation('decoding does not terminate within its deadline', dict(oracles.hang_replay(), calls=real.HANGS[:3]),
-                        'returns or raises', gave_up)
-        else:
-            broken.append({'kind': 'oracle', 'what': 'calls into pamqp hang: ' + gave_up[:400], 'detail': real.HANGS[:3]})
+        # a call into the library that does not return within its deadline (3 of them: the search was abandoned) is a
+        # failing input of whichever property was being examined: no bytes, no frame, no exception were produced
+        r.violation('a call into the library does not return within its deadline' if pid != 'C08' else 'decoding does not terminate within its deadline',
+                    dict(oracles.hang_replay(), calls=real.HANGS[:3]), 'returns or raises', gave_up)
         results.append(r)
     if (changed_fns or advisory) and not broken and not gave_up and not any(r.violations for r in results) and not ctx.thorough:
         # the code this property is anchored in was edited (or no longer has the shape the model was written
